@@ -91,16 +91,23 @@ Chains(n) == \* all keyword spellings for a chain of n else-ifs
   ELSE {<<Elif(k1, B, Block(<<Esi>>)), Elif(k2, Bin("!=", A, S), Block(<<>>)), Elif(k3, Not(A), Block(<<Simple("restart")>>))>> :
           k1 \in ElifKws, k2 \in ElifKws, k3 \in ElifKws}
 Ifs0 == {IfS(c, b, ch, el) : c \in {A, Bin("&&", A, B)}, b \in Bodies, ch \in Chains(0) \cup Chains(1) \cup Chains(2) \cup Chains(3),
-                             el \in {None, Block(<<Esi>>)}}
+                             el \in {None, Block(<<Esi>>), Block(<<>>)}}
 Brk == Simple("break")   Ft == Simple("fallthrough")
 Eq(v) == [k |-> "test", op |-> "==", right |-> String(v)]
 Re(v) == [k |-> "test", op |-> "~", right |-> String(v)]
+ReL(v) == [k |-> "test", op |-> "~", right |-> LongString(v)]        \* case ~ {"..."}:
 CaseSets ==
   {<<CaseC(Eq("a"), <<Brk>>)>>, <<CaseC(None, <<Esi, Brk>>)>>, <<CaseC(Re("^a"), <<Esi, Brk>>)>>}
   \cup {<<CaseC(t1, <<Esi, e1>>), CaseC(t2, <<Brk>>)>> : t1 \in {Eq("a"), Re("^a"), None}, t2 \in {Eq("b"), Re("^b")}, e1 \in {Brk, Ft}}
   \cup {<<CaseC(Eq("a"), <<e1>>), CaseC(None, <<Esi, e2>>), CaseC(Eq("b"), <<Simple("restart"), Brk>>)>> : e1 \in {Brk, Ft}, e2 \in {Brk, Ft}}
   \cup {<<CaseC(Eq("a"), <<e1>>), CaseC(Re("b"), <<e2>>), CaseC(None, <<Brk>>)>> : e1 \in {Brk, Ft}, e2 \in {Brk, Ft}}
   \cup {<<CaseC(Eq("a"), <<IfS(A, Block(<<Esi>>), <<>>, None), Brk>>), CaseC(Eq("a b"), <<Brk>>)>>}
+  \* the same literal under different match operators, and labels that differ only in case / blanks / spelling of
+  \* the string are different labels
+  \cup {<<CaseC(Eq("a"), <<Brk>>), CaseC(Re("a"), <<Brk>>)>>, <<CaseC(Re("a"), <<Ft>>), CaseC(Eq("a"), <<Brk>>)>>,
+        <<CaseC(Eq("a"), <<Brk>>), CaseC(None, <<Brk>>), CaseC(Re("a"), <<Esi, Brk>>)>>,
+        <<CaseC(Eq("a"), <<Brk>>), CaseC(Re("a"), <<Brk>>), CaseC(ReL("a"), <<Brk>>), CaseC(Eq("A"), <<Brk>>), CaseC(Eq("a "), <<Brk>>)>>,
+        <<CaseC(ReL("a"), <<Ft>>), CaseC(Eq("a"), <<Ft>>), CaseC(Re("a"), <<Brk>>)>>}
 Switches == {SwitchS(c, cs) : c \in {A, CallX("f", <<A>>), Bool(TRUE), String("s")}, cs \in CaseSets}
 \* nesting depth 2: an if / switch inside the arms of an if
 Inners == {IfS(B, Block(<<Esi>>), <<>>, Block(<<>>)), SwitchS(A, <<CaseC(Eq("a"), <<Brk>>)>>), Block(<<LabelS("l:"), GotoS("l")>>)}
@@ -124,14 +131,16 @@ Seq4Cases == {[fam |-> "seq", x |-> <<s1, s2, s3, s4>>] : s1 \in SeqPool, s2 \in
 \* ---- declarations
 P1 == Prop("host", String("h"))   P2 == Prop("connect_timeout", RTime("1s"))   P3 == Prop("port", String("80"))
 PrP == Prop("probe", Probe(<<Prop("request", Bin("juxt", String("GET / HTTP/1.1"), String("Host: x"))), Prop("interval", RTime("5s"))>>))
+Pr1 == Prop("probe", Probe(<<Prop("interval", RTime("5s"))>>))
 Decls ==
   {AclD("a", cs) : cs \in {<<>>, <<Cidr(FALSE, "10.0.0.0", Int("8"))>>, <<Cidr(TRUE, "10.1.0.0", Int("16")), Cidr(FALSE, "::1", None)>>,
                            <<Cidr(FALSE, "192.168.0.1", None), Cidr(TRUE, "192.168.0.0", Int("24")), Cidr(TRUE, "127.0.0.1", None)>>}}
-  \cup {BackendD("b", ps) : ps \in {<<>>, <<P1>>, <<P1, P2>>, <<P1, PrP>>, <<PrP, P3>>, <<Prop("probe", Probe(<<>>))>>,
+  \cup {BackendD("b", ps) : ps \in {<<>>, <<P1>>, <<P1, P2>>, <<P1, PrP>>, <<PrP, P3>>, <<Prop("probe", Probe(<<>>))>>, <<Pr1>>, <<Pr1, P1>>,
                                     <<Prop("ssl", Bool(TRUE)), Prop("max_connections", Int("200")), Prop("first_byte_timeout", RTime("1.5s"))>>}}
   \cup {DirectorD("d", ty, ps) : ty \in {"random", "client"},
                                  ps \in {<<>>, <<Prop("quorum", Postfix("%", Int("50")))>>,
                                          <<BackendObj(<<Prop("backend", Ident("b")), Prop("weight", Int("1"))>>)>>,
+                                         <<BackendObj(<<>>)>>, <<BackendObj(<<>>), Prop("quorum", Int("1")), BackendObj(<<Prop("backend", Ident("b"))>>)>>,
                                          <<Prop("retries", Int("3")), BackendObj(<<Prop("backend", Ident("b1"))>>), BackendObj(<<Prop("backend", Ident("b2")), Prop("weight", Int("2"))>>)>>}}
   \cup {TableD("t", vt, ps, lc) : vt \in {None, Ident("STRING"), Ident("BACKEND")}, lc \in {TRUE, FALSE},
                                   ps \in {<<>>, <<TProp("a", String("b"))>>, <<TProp("a", String("b")), TProp("c", Ident("d"))>>,
@@ -141,10 +150,13 @@ Decls ==
   \cup {SubD("fn", ps, rt, Block(<<ReturnS(Bin("==", Ident("var.p"), S), FALSE)>>)) :
           ps \in {<<>>, <<Param("STRING", "var.p")>>, <<Param("STRING", "var.p"), Param("INTEGER", "var.q")>>},
           rt \in {None, Ident("BOOL"), Ident("STRING")}}
+  \* every list production with 0, 1, 2 elements: the parameter list written out although it is empty
+  \cup {SubDP(n, <<>>, rt, b, TRUE) : n \in {"fn", "vcl_recv"}, rt \in {None, Ident("BOOL"), Ident("STRING")},
+                                      b \in {Block(<<>>), Block(<<ReturnS(Bool(TRUE), FALSE)>>), Block(<<Esi, CallS("fn", <<>>, TRUE)>>)}}
   \cup {PenaltyboxD("pb"), RatecounterD("rc"), ImportS("foo"), IncludeS("mod", TRUE), IncludeS("mod", FALSE)}
 DeclCases == {[fam |-> "decl", x |-> d] : d \in Decls}
 \* source order at the top level: every ordered triple of one declaration of each kind
-DeclPool == {AclD("a", <<>>), BackendD("b", <<P1>>), DirectorD("d", "random", <<>>), TableD("t", None, <<>>, FALSE),
+DeclPool == {SubDP("fn", <<>>, Ident("STRING"), Block(<<>>), TRUE), AclD("a", <<>>), BackendD("b", <<P1>>), DirectorD("d", "random", <<>>), TableD("t", None, <<>>, FALSE),
              SubD("vcl_recv", <<>>, None, Block(<<Esi>>)), PenaltyboxD("pb"), RatecounterD("rc"), ImportS("foo"), IncludeS("mod", FALSE)}
 TripleCases == {[fam |-> "declorder", x |-> <<d1, d2, d3>>] : d1 \in DeclPool, d2 \in DeclPool, d3 \in DeclPool}
 
